@@ -682,6 +682,66 @@ fn tie_case() -> impl Strategy<Value = Case> {
         })
 }
 
+/// files with different ECU sets that share one ECU; the shared ECU's messages tie in reception time, timestamp,
+/// counter and payload and differ only in the extended header: the output must not depend on the argument order
+fn same_ecu_ties(v: &(u8, Vec<(u8, u8)>, u16), rep: &mut Rep) -> Result<(), String> {
+    let (nfiles, extra, perm) = v;
+    let nfiles = 3 + (*nfiles as usize % 3); // 3..5 files
+    let sb = Sandbox::new("c14tie");
+    let mk = |ecu: &[u8; 4], rt: u64, ts: u32, mcnt: u8, apid: &[u8; 4], text: &str| -> DltMessage {
+        DltMessage {
+            index: 0,
+            reception_time_us: rt,
+            ecu: DltChar4::from_buf(ecu),
+            timestamp_dms: ts,
+            standard_header: DltStandardHeader { htyp: 0x31, mcnt, len: 0 },
+            extended_header: Some(DltExtendedHeader { verb_mstp_mtin: 0x41, noar: 1, apid: DltChar4::from_buf(apid), ctid: DltChar4::from_buf(b"CTX\0") }),
+            payload: crate::model::trace::string_payload(text),
+            payload_text: None,
+            lifecycle: 0,
+        }
+    };
+    let mut names = vec![];
+    for gi in 0..nfiles {
+        let own = [b'E', b'C', b'U', b'0' + gi as u8];
+        let mut msgs = vec![mk(&own, BASE + gi as u64 * S, 10_000, 0, b"OWN\0", "first")];
+        // the shared ECU: same time, timestamp, counter and payload in every file, different application id
+        for (k, (cnt, word)) in extra.iter().enumerate() {
+            msgs.push(mk(b"SHRD", BASE + 1000 * S + k as u64 * S, 20_000 + k as u32 * 10_000, *cnt, &[b'A', b'P', b'0' + gi as u8, 0], ["tie", "same", "x"][*word as usize % 3]));
+        }
+        let mut b = vec![];
+        for m in &msgs {
+            m.to_write(&mut b).map_err(|e| e.to_string())?;
+        }
+        let name = sb.path(&format!("f{}.dlt", gi)).to_string_lossy().into_owned();
+        std::fs::write(&name, b).map_err(|e| e.to_string())?;
+        names.push(name);
+    }
+    let run = |order: &[usize]| -> Result<String, String> {
+        let mut a = vec!["-a".to_string()];
+        a.extend(order.iter().map(|i| names[*i].clone()));
+        run_convert_env(&a, &[]).map(|x| x.0)
+    };
+    let base: Vec<usize> = (0..nfiles).collect();
+    let reference = run(&base)?;
+    ensure_eq!(reference.lines().count(), nfiles * (1 + extra.len()), "number of printed messages");
+    let mut p2 = base.clone();
+    p2.rotate_left(1 + *perm as usize % (nfiles - 1));
+    if perm % 2 == 1 {
+        p2.reverse();
+    }
+    let mut p3 = base.clone();
+    p3.swap(0, nfiles - 1);
+    p3.swap(1, (*perm as usize / 2) % nfiles);
+    for p in [p2, p3] {
+        let out = run(&p)?;
+        ensure!(out == reference, "naming the input files in the order {:?} instead of {:?} changes the output (first messages of the files have distinct reception times)", p, base);
+    }
+    rep.label_if(nfiles >= 4, "ge4_files");
+    rep.nontrivial = !extra.is_empty();
+    Ok(())
+}
+
 pub fn def(tier: Tier) -> PropertyDef {
     let opts = (
         (prop::option::weighted(0.5, (any::<u16>(), any::<u16>())), prop::option::weighted(0.4, prop::collection::vec(any::<u16>(), 1..3))),
@@ -705,6 +765,7 @@ pub fn def(tier: Tier) -> PropertyDef {
             .shrink_iters(150)
             .slow()
             .boxed(),
+            sub("same_ecu_ties", tier.pick(120, 3_000), (any::<u8>(), prop::collection::vec((0u8..2, 0u8..3), 1..4), any::<u16>()), same_ecu_ties).rates(&[("ge4_files", 0.4)]).shrink_iters(40).slow().boxed(),
             sub("cross_group_ties", tier.pick(250, 6_000), tie_case(), check).rates(&[("cross_group_tie", 0.8), ("permuted_arguments", 0.8), ("small_channels", 0.3)]).shrink_iters(100).slow().boxed(),
         ],
         workers: 16,
